@@ -32,7 +32,8 @@ ASSUMPTIONS = [
     "stop = steps=k then edit of steps in restart.toml, or kill at a step "
     "boundary (after the restart file of step k was written)",
 ]
-MUST_REACH = ["pair_compared", "reissue_checked", "determinism_compared"]
+MUST_REACH = ["pair_compared", "reissue_checked", "determinism_compared",
+              "hash_seed_pair_compared"]
 JOB_TIMEOUT = 1700
 
 
@@ -136,6 +137,22 @@ def plan(tier, seed):
     for i in range(0, len(tp), 1):
         jobs.append({"kind": "pairs", "hashseed": rng.randrange(1000),
                      "pairs": tp[i:i + 1]})
+    # the process itself must not matter: the same seed in interpreters
+    # with different string-hash seeds (run A in one process; run B stopped
+    # and continued in two more), ensembles listing two engines
+    for j in range(6 if tier == "quick" else 60):
+        hp = []
+        for _ in range(4):
+            p = _pair(rng, tier)
+            p["spec"]["allowmaxlength"] = True
+            p["spec"]["engines2"] = True
+            p["spec"]["engine0"] = rng.random() < 0.5
+            p["spec"]["steps"] = min(p["spec"]["steps"], 40)
+            N = p["spec"]["steps"]
+            p["k"] = rng.randint(1, N - 1)
+            p["hashseeds"] = rng.sample(range(1, 4000), 3)
+            hp.append(p)
+        jobs.append({"kind": "hashpairs", "hashseed": 0, "pairs": hp})
     mm = [_multi(rng, tier) for _ in range(nmulti)]
     for i in range(0, len(mm), 5):
         jobs.append({"kind": "multi", "hashseed": rng.randrange(1000),
@@ -282,6 +299,62 @@ def work(job, scratch):
             if len(res["samples"]) < 2:
                 res["samples"].append({"spec": F.brief(spec), "A": p["A"],
                                        "B": p["B"], "mode": p["mode"]})
+            for d in (dA, dB):
+                shutil.rmtree(d, ignore_errors=True)
+        return res
+
+    if job["kind"] == "hashpairs":
+        import json
+        import subprocess
+        import sys
+        here = os.path.dirname(os.path.dirname(os.path.dirname(
+            os.path.abspath(__file__))))
+
+        def sub(spec, cdir, mode, steps, hs):
+            sf = cdir + ".spec.json"
+            json.dump(spec, open(sf, "w"))
+            env = dict(os.environ, PYTHONHASHSEED=str(hs))
+            env["PYTHONPATH"] = os.environ.get("VERIF_REPO", "/repo") + \
+                ":" + here
+            p = subprocess.run([sys.executable, "-m", "vf.sched_sub", sf,
+                                cdir, mode, str(steps)], env=env, timeout=600,
+                               stdout=subprocess.PIPE, stderr=subprocess.PIPE)
+            for line in reversed(p.stdout.decode(errors="replace")
+                                 .splitlines()):
+                if line.startswith("{"):
+                    return json.loads(line)
+            return {"outcome": "error", "error": p.stderr.decode(
+                errors="replace")[-600:]}
+        for i, p in enumerate(job["pairs"]):
+            spec, N, k = p["spec"], p["spec"]["steps"], p["k"]
+            dA = os.path.join(scratch, f"h{i}A")
+            dB = os.path.join(scratch, f"h{i}B")
+            for d in (dA, dB):
+                shutil.rmtree(d, ignore_errors=True)
+            outs = [sub(spec, dA, "first", N, p["hashseeds"][0]),
+                    sub(spec, dB, "first", k, p["hashseeds"][1]),
+                    sub(spec, dB, "resume", N, p["hashseeds"][2])]
+            res["n"] += 1
+            wit = {"spec": F.brief(spec), "k": k,
+                   "hashseeds": p["hashseeds"]}
+            if any(o["outcome"] != "done" for o in outs):
+                res["violations"].append(dict(
+                    wit, mech="run-did-not-finish",
+                    what=f"outcomes {[o['outcome'] for o in outs]} "
+                         f"{[o.get('error') for o in outs if o.get('error')]}"
+                         [:600]))
+                continue
+            eq, oos, diff = _compare(dA, dB, False)
+            reach("hash_seed_pair_compared")
+            ev("hash_seed_pairs")
+            if not eq:
+                res["violations"].append(dict(
+                    wit, mech="result-depends-on-the-process",
+                    what="the same seed gives different files in "
+                         "interpreters with different PYTHONHASHSEED (run in "
+                         "one go vs stopped and continued)", diff=diff))
+            else:
+                res["sigs"].append(f"hp-{spec['seed']}-{k}")
             for d in (dA, dB):
                 shutil.rmtree(d, ignore_errors=True)
         return res
